@@ -17,6 +17,24 @@ with tempfile.TemporaryDirectory() as d:
         if not any(c.tag in ("failure", "error", "skipped") for c in tc):
             passed.add(f"{tc.get('classname')}::{tc.get('name')}")
 missing = sorted(want - passed)
+# timing-based tests (real sleeps of 10 ms) flake when the machine is loaded: re-run the missing ones alone, twice at most
+for attempt in range(2):
+    if not missing or len(missing) > 20:
+        break
+    ids = [m.replace(".", "/", m.split("::")[0].count(".")).replace("::", ".py::", 1) for m in missing]
+    with tempfile.TemporaryDirectory() as d:
+        x = os.path.join(d, "j.xml")
+        subprocess.run(["/venv/bin/python", "-m", "pytest", "-q", "-p", "no:cacheprovider", "-p", "no:randomly", "--timeout=900",
+                        "--junitxml=" + x] + ids, cwd=repo, env=env, stdout=subprocess.DEVNULL, stderr=subprocess.DEVNULL)
+        try:
+            for tc in ET.parse(x).getroot().iter("testcase"):
+                if not any(c.tag in ("failure", "error", "skipped") for c in tc):
+                    passed.add(f"{tc.get('classname')}::{tc.get('name')}")
+        except Exception:
+            pass
+    retried = missing
+    missing = sorted(want - passed)
+    print(f"re-ran {len(retried)} missing test(s) alone: still missing {len(missing)}")
 print(f"stable_pass={len(want)} passed_now={len(passed)} missing={len(missing)}")
 for m in missing[:40]:
     print("  MISSING", m)
